@@ -389,6 +389,49 @@ def ref_queries(prog):
     return out
 
 
+def head_crossing(frames, v, path) -> str:
+    """Documents with a function head / assert between scopes and the set: does naming the
+    defining binding need the scopes outside that head?
+
+    none           - no such head
+    not-needed     - the same binding is designated with the outer scopes cut off
+    needed-simple  - the reference at the path names, in one hop, a literal binding of the
+                     document's outermost let layer, no other layer outside the head binds that
+                     name and nothing inside the head binds or could bind it
+    needed-complex - anything else (chains, with environments, inherit, sets bound outside)"""
+    idx = max((i for i, f in enumerate(frames) if f.kind == "opaque"), default=None)
+    if idx is None:
+        return "none"
+    inner = frames[idx + 1:]
+    for i, f in enumerate(inner):
+        if f.kind == "with" and f.env_name is not None:
+            try:
+                S.lookup_set(inner[:i], f.env_name, frozenset())
+            except (S.Unbound, S.Cycle, RecursionError):
+                return "needed-complex"
+
+    def site(fr):
+        try:
+            res = S.evaluate(fr, len(fr) - 1, path[-1], frozenset())
+        except S.Unbound as exc:
+            return ("unbound", tuple((id(a), b) for a, b in getattr(exc, "links", [])))
+        except (S.Cycle, RecursionError):
+            return ("cycle",)
+        where = res[2] if res[0] == "value" else res[3]
+        return ("site", id(where[0]), where[1])
+
+    full, trunc = site(frames), site(inner)
+    if full == trunc:
+        return "not-needed"
+    if isinstance(v, S.Ref) and trunc[0] == "unbound" and len(trunc[1]) <= 1 and full[0] == "site":
+        f = frames[0]
+        if f.kind == "let" and id(f.bindings) == full[1] and full[2] == v.name \
+                and isinstance(f.bindings.get(v.name), int) \
+                and not any(v.name in g.bindings for g in frames[1:idx] if g.kind in ("let", "rec")):
+            return "needed-simple"
+    return "needed-complex"
+
+
 def plan(tier, seed):
     n_shards = 16 if tier == "quick" else 64
     n = 2200 if tier == "quick" else 9000
@@ -407,7 +450,10 @@ def run_shard(spec):
     cov = FunctionCoverage()
     cov.start()
     for i in range(spec["n"]):
-        prog = S.generate(rng)
+        route = rng.choice(["cli", "cli", "api"])
+        # command-line route: sometimes a function head / assert between the scopes and the set
+        # (the let around a function head still encloses the body: `let a = 1; in { pkgs }: { x = a; }`)
+        prog = S.generate(rng, opaque=(route == "cli" and rng.random() < 0.3))
         if cst.has_error(prog.text):
             res["inconclusive"] += 1
             continue
@@ -415,7 +461,6 @@ def run_shard(spec):
         if not qs:
             continue
         history = rng.random() < 0.5
-        route = rng.choice(["cli", "cli", "api"])
         steps = rng.choice([2, 3, 5]) if history else 1
         try:
             live = E.LiveDoc(prog.text)
@@ -528,6 +573,10 @@ def run_shard(spec):
             base = {"route": route, "expected_site": desc, "kind": kind, "history": "yes" if step else "no",
                     "lexical": feats.get("lexical", "?"), "with_inside_lexical": feats.get("with_inside_lexical", "?"),
                     "depth": feats.get("depth", "?")}
+            hc = head_crossing(frames, v, path)
+            if hc != "none":
+                base["head_crossing"] = hc
+                B.bump(obs.setdefault("head_crossing", {}), hc)
 
             def fail(effect, detail, **extra):
                 k = dict(base)
